@@ -246,7 +246,11 @@ func lexMarkdown(s string) M {
 		parts := splitPipes(line)
 		cells := []interface{}{}
 		for _, p := range parts[1:max(1, len(parts)-1)] {
-			cells = append(cells, []interface{}{p, html.UnescapeString(strings.Trim(p, " ")), b2i(hasRawMarkup(p))})
+			tr := strings.Trim(p, " ")
+			ndash := strings.Count(p, "-")
+			delimOnly := b2i(strings.Trim(p, " -:") == "" && strings.Trim(strings.Trim(tr, ":"), "-") == "")
+			cells = append(cells, []interface{}{p, html.UnescapeString(tr), b2i(hasRawMarkup(p)),
+				ndash, b2i(strings.HasPrefix(tr, ":")), b2i(strings.HasSuffix(tr, ":") && len(tr) > 1), delimOnly})
 		}
 		post := ""
 		if len(parts) > 1 {
